@@ -116,9 +116,16 @@ def forest_shape(p):
 EXC = {"ValueError": "RefuseValue", "IndexError": "RefuseIndex"}
 
 
-def build_forest(Forest, V, p):
+def build_forest(Forest, V, p, layout="C"):
+    arr = np.array(p, dtype=np.int_)
+    if layout == "strided" and len(p):
+        big = np.full(2 * len(p), len(p) + 7, dtype=np.int_)     # the skipped entries are invalid parents
+        big[::2] = arr
+        arr = big[::2]
+    elif layout == "reversed" and len(p):
+        arr = np.ascontiguousarray(arr[::-1])[::-1]
     try:
-        return "Accept", Forest(V, np.array(p, dtype=np.int_))
+        return "Accept", Forest(V, arr)
     except Exception as e:  # noqa
         return EXC.get(type(e).__name__, "Other:" + type(e).__name__), None
 
@@ -307,7 +314,7 @@ def forest_section(ck):
                 p = q0
         else:
             p = random_forest(rng, V, chainy=(kind == 1))
-        verdict, _ = build_forest(Forest, V, p)
+        verdict, _ = build_forest(Forest, V, p, layout=["C", "strided", "reversed"][(k // 4) % 3])
         acyc = d_reaches_root(p)
         ck.count(("ctor", tuple(p)), bucket="random:V>=7:%s" % ("forest" if acyc else "cyclic"))
         if (verdict == "Accept") != acyc:
@@ -494,6 +501,42 @@ def to_scaled(arr, scale):
     return out
 
 
+LAYOUTS = ["C", "F", "transposed", "column-slice", "row-stride", "negative-strides"]
+
+
+def relayout(a, layout):
+    """A NEW (V, dim) array with the values and dtype of `a` in the given memory layout (`.copy()` would silently
+    return a C-contiguous array).  The slices are views into larger arrays whose other entries hold the extreme
+    values of `a`, so that reading outside the view shows up in a maximum or a minimum."""
+    a = np.asarray(a)
+    if a.ndim != 2 or layout == "C":
+        return np.ascontiguousarray(a).copy()
+    V, dim = a.shape
+    lo, hi = (a.min(), a.max()) if a.size else (0, 0)
+    if layout == "F":
+        out = np.asfortranarray(a).copy(order="F")
+    elif layout == "transposed":
+        out = np.ascontiguousarray(a.T).copy().T
+    elif layout == "column-slice":
+        big = np.empty((V, dim + 2), dtype=a.dtype)
+        big[:, 0::2] = hi
+        big[:, 1::2] = lo
+        big[:, 1:1 + dim] = a
+        out = big[:, 1:1 + dim]
+    elif layout == "row-stride":
+        big = np.empty((2 * V, dim), dtype=a.dtype)
+        big[:] = hi
+        big[1::4] = lo
+        big[::2] = a
+        out = big[::2]
+    elif layout == "negative-strides":
+        out = np.ascontiguousarray(a[::-1, ::-1]).copy()[::-1, ::-1]
+    else:
+        raise ValueError(layout)
+    assert out.shape == a.shape and out.dtype == a.dtype and np.array_equal(out, a)
+    return out
+
+
 INT_DTYPES = ["uint8", "uint16", "uint32", "uint64", "int8", "int16", "int32", "int64"]
 
 
@@ -619,20 +662,21 @@ def morphology_section(ck):
         cases.append((V, E, ints, 1, dt, "dtype"))
 
     n_lat = 0
-    n_dtind = 0
-    for (V, E, ints, scale, dt, origin) in cases:
+    n_dtind = n_layout = 0
+    for case_no, (V, E, ints, scale, dt, origin) in enumerate(cases):
         data, dataf = mk_data(ints, scale, dt)
+        layout = LAYOUTS[case_no % len(LAYOUTS)]          # memory layout of the array handed to Field()
         dim = data.shape[1]
         kind = graph_kind(V, E)
         dk = dtype_kind(dt)
-        ck.count(("morph", V, tuple(E), repr(ints), scale, dt), nontrivial=len(E) > 0, bucket="morph:%s:%s:%s" % (origin, dt, kind))
-        rp = {"V": V, "edges": [list(e) for e in E], "field_times_scale": ints, "scale": scale, "dtype": dt}
+        ck.count(("morph", V, tuple(E), repr(ints), scale, dt), nontrivial=len(E) > 0, bucket="morph:%s:%s:%s:%s" % (origin, dt, kind, layout))
+        rp = {"V": V, "edges": [list(e) for e in E], "field_times_scale": ints, "scale": scale, "dtype": dt, "layout": layout}
         cols = [[r[d] for r in ints] for d in range(dim)]
         nit = 1 if origin in ("exhaustive", "dtype-path3") else int(rng.integers(1, 3))
 
         def run(op, *a, **kw):
             src = kw.pop("_src", data)
-            F = mk_field(Field, V, E, src.copy())
+            F = mk_field(Field, V, E, relayout(src, kw.pop("_layout", layout)))
             try:
                 getattr(F, op)(*a, **kw)
             except ValueError:
@@ -660,9 +704,9 @@ def morphology_section(ck):
         if fast != slow:
             ck.fail("dilation/fast-vs-generic", "compiled and generic dilation differ on V=%d edges=%s field=%s: %s vs %s" % (V, E, ints, fast, slow), dict(rp, fast=fast, generic=slow))
         if pyx_dilation is not None and E and dataf is not None:
-            F = mk_field(Field, V, E, dataf.copy())
+            F = mk_field(Field, V, E, relayout(dataf, layout))
             idx, neighb, _ = F.compact_neighb()
-            fld = dataf.copy()
+            fld = relayout(dataf, layout)
             try:
                 for _ in range(nit):
                     pyx_dilation(fld, idx, neighb)
@@ -674,6 +718,16 @@ def morphology_section(ck):
         ero = run("erosion", nit)
         opn = run("opening", nit)
         cls = run("closing", nit)
+        # layout independence: the same values in a C-contiguous array must give the same result
+        if layout != "C":
+            n_layout += 1
+            for nm, got, args, kw in (("dilation", fast, (nit,), {}), ("dilation", slow, (nit,), {"fast": False}), ("erosion", ero, (nit,), {}),
+                                      ("opening", opn, (nit,), {}), ("closing", cls, (nit,), {})):
+                ref = run(nm, *args, _layout="C", **kw)
+                if got != ref:
+                    ck.fail("%s/layout-dependent-result/%s%s" % (nm, layout, "/generic-path" if kw else ""),
+                            "%s(%d%s) on V=%d edges=%s %s field*%d=%s gives %s when the field array is %s but %s when it is C-contiguous" % (nm, nit, ", fast=False" if kw else "", V, E, dt, scale, ints, got, layout, ref),
+                            dict(rp, op=nm, nbiter=nit, got=got, c_contiguous_result=ref))
         # dtype independence: the same numbers as float64 must give the same result
         if dt != "float64" and dataf is not None:
             n_dtind += 1
@@ -685,7 +739,7 @@ def morphology_section(ck):
         hns = []
         nbs = d_nbrs(V, E, True)
         for d in range(dim):
-            F = mk_field(Field, V, E, data.copy())
+            F = mk_field(Field, V, E, relayout(data, layout))
             try:
                 hn = as_list(F.highest_neighbor(d))
             except IndexError:
@@ -743,7 +797,7 @@ def morphology_section(ck):
                 ck.fail("closing/decreases-field", "closing on V=%d edges=%s field=%s gives %s below the field" % (V, E, cols, cls), dict(rp, got=cls))
             for nm, once in (("opening", opn), ("closing", cls)):
                 if isinstance(once, list):
-                    F = mk_field(Field, V, E, data.copy())
+                    F = mk_field(Field, V, E, relayout(data, layout))
                     try:
                         getattr(F, nm)(nit)
                         getattr(F, nm)(nit)
@@ -759,7 +813,7 @@ def morphology_section(ck):
     if F.field.ravel().tolist() != [0.0, 1.0, 1.0]:
         ck.fail("opening/increases-field/erosion-excludes-vertex", "opening of [0,5,1] on the path 0-1-2 gives %s (self-inclusive erosion gives [0,1,1])" % F.field.ravel().tolist(),
                 {"V": 3, "edges": [[0, 1], [1, 0], [1, 2], [2, 1]], "field": [0, 5, 1]})
-    ck.section("morphology", cases=len(cases), lattice_cases=n_lat, dtype_independence_cases=n_dtind, model_terms=len(terms), pyx_source_executed=pyx_err is None)
+    ck.section("morphology", cases=len(cases), lattice_cases=n_lat, dtype_independence_cases=n_dtind, non_C_layout_cases=n_layout, layouts=LAYOUTS, model_terms=len(terms), pyx_source_executed=pyx_err is None)
     if ck.build is not None and ck.build.ok:
         res = ck.coq_bools(HDR, terms, name="morph")
         ck.cov["traces_validated_against_impl"] += len(res)
@@ -881,6 +935,7 @@ def levelsets_section(ck):
     for k in range(n):
         V, E, data, origin = levelset_case(rng, k)
         dim = data.shape[1]
+        layout = LAYOUTS[(k // 4) % len(LAYOUTS)]         # memory layout of every array handed to Field() in this case
         refdim = int(rng.integers(0, dim))
         col = [int(x) for x in data[:, refdim]]
         vals = sorted(set(col))
@@ -889,17 +944,17 @@ def levelsets_section(ck):
         else:
             th = float(rng.choice(vals + [vals[0] - 1, vals[-1] + 1])) if k % 3 else -np.inf
         above = [c >= th for c in col]
-        rp = {"V": V, "edges": [list(e) for e in E], "field": data.tolist(), "refdim": refdim, "th": th}
+        rp = {"V": V, "edges": [list(e) for e in E], "field": data.tolist(), "refdim": refdim, "th": th, "layout": layout}
         ck.count(("level", V, tuple(E), data.tobytes(), refdim, th), nontrivial=V > 1 and any(above),
-                 bucket="levelsets:%s:dim=%d:%s" % (origin, dim, "none-above" if not any(above) else ("all-above" if all(above) else "some-above")))
+                 bucket="levelsets:%s:%s:dim=%d:%s" % (origin, layout, dim, "none-above" if not any(above) else ("all-above" if all(above) else "some-above")))
         nb = d_nbrs(V, E, False)
         dimtag = "dim=1" if dim == 1 else "multi-dim-field"
 
         # ---- local maxima
         try:
-            F = mk_field(Field, V, E, data.copy())
+            F = mk_field(Field, V, E, relayout(data, layout))
             dep = as_list(F.local_maxima(refdim, th))
-            F = mk_field(Field, V, E, data.copy())
+            F = mk_field(Field, V, E, relayout(data, layout))
             gi, gd = F.get_local_maxima(refdim, th)
             gi, gd = as_list(gi), as_list(gd)
         except AttributeError:
@@ -919,7 +974,7 @@ def levelsets_section(ck):
 
         # ---- watershed
         try:
-            F = mk_field(Field, V, E, data.copy())
+            F = mk_field(Field, V, E, relayout(data, layout))
             widx, wlab = F.custom_watershed(refdim, th)
             widx, wlab = as_list(widx), as_list(wlab)
             werr = None
@@ -972,7 +1027,7 @@ def levelsets_section(ck):
 
         # ---- bifurcations
         try:
-            F = mk_field(Field, V, E, data.copy())
+            F = mk_field(Field, V, E, relayout(data, layout))
             bidx, bpar, blab = F.threshold_bifurcations(refdim, th)
             bidx, bpar, blab = as_list(bidx), as_list(bpar), as_list(blab)
             berr = None
@@ -1028,7 +1083,7 @@ def levelsets_section(ck):
             nbs = d_nbrs(V, E, True)
             ehn = [max(nbs[i], key=lambda j: (col[j], -j)) for i in range(V)]
             try:
-                hn = as_list(mk_field(Field, V, E, data.copy()).highest_neighbor(refdim))
+                hn = as_list(mk_field(Field, V, E, relayout(data, layout)).highest_neighbor(refdim))
             except IndexError:
                 hn = "IndexError"
             if hn != ehn:
@@ -1051,7 +1106,7 @@ def levelsets_section(ck):
             exp = nxt
 
         def mk():
-            return Field(V, np.array(E, dtype=np.int_), w.copy(), fdata.copy()) if E else Field(V, None, None, fdata.copy())
+            return Field(V, np.array(E, dtype=np.int_), w.copy(), relayout(fdata, layout)) if E else Field(V, None, None, relayout(fdata, layout))
 
         for mode in ("nbiter=n", "n-calls"):
             F = mk()
@@ -1080,7 +1135,7 @@ def levelsets_section(ck):
         # ---- the queries are pure: they leave the stored field (values, dtype, shape) as it was
         for fn, args in (("local_maxima", (refdim, th)), ("get_local_maxima", (refdim, th)), ("custom_watershed", (refdim, th)),
                          ("threshold_bifurcations", (refdim, th)), ("highest_neighbor", (refdim,))):
-            F = mk_field(Field, V, E, data.copy())
+            F = mk_field(Field, V, E, relayout(data, layout))
             try:
                 getattr(F, fn)(*args)
             except Exception:  # noqa  (reported by the sub-check of that function)
@@ -1091,7 +1146,7 @@ def levelsets_section(ck):
 
         # ---- subfield
         valid = rng.integers(0, 2, V).astype(bool)
-        F = Field(V, np.array(E, dtype=np.int_), w, data.copy()) if E else Field(V, None, None, data.copy())
+        F = Field(V, np.array(E, dtype=np.int_), w, relayout(data, layout)) if E else Field(V, None, None, relayout(data, layout))
         S = F.subfield(valid)
         kept = [i for i in range(V) if valid[i]]
         if not kept:
@@ -1132,7 +1187,8 @@ def levelsets_section(ck):
         above = [c >= th for c in col]
         nb = d_nbrs(V, E, False)
         dk = dtype_kind(dt)
-        rp = {"V": V, "edges": [list(e) for e in E], "field": col, "dtype": dt, "th": th}
+        layout = LAYOUTS[(k // 10) % len(LAYOUTS)]
+        rp = {"V": V, "edges": [list(e) for e in E], "field": col, "dtype": dt, "th": th, "layout": layout}
         ck.count(("level-dtype", V, tuple(E), tuple(col), dt, th), nontrivial=len(E) > 0, bucket="levelsets-dtype:%s" % dt)
 
         # threshold_bifurcations visits the vertices in argsort order: its numbering is only determined when the values are
@@ -1151,7 +1207,7 @@ def levelsets_section(ck):
                   "distinct": (np.array(cold, dtype=dt).reshape(V, 1), np.array(cold, dtype=np.float64).reshape(V, 1), cold)}
 
         def call(name, src):
-            F = mk_field(Field, V, E, src.copy())
+            F = mk_field(Field, V, E, relayout(src, layout))
             try:
                 r = getattr(F, name)(0, th)
             except Exception as e:  # noqa
